@@ -1676,6 +1676,45 @@ fn main() {
             }
             println!("RESULT enum:random-chunks seed={seed}: {count} random texts decode the same from randomly chunked, randomly interrupted readers as from a buffer (rows of the lazy iterator included)");
         }
+        // ---- C17: over seeded random values the C entry points agree with the Rust API: the 18 kind tests, Zinc and JSON text out and back in
+        "enum:random-capi" => unsafe {
+            use libhaystack::c_api::value::*;
+            use libhaystack::c_api::zinc::*;
+            use libhaystack::c_api::json::*;
+            use libhaystack::c_api::str::haystack_string_destroy;
+            use libhaystack::encoding::zinc::encode::ToZinc;
+            use randgen::*;
+            use std::ffi::{CStr, CString};
+            let seed: u64 = std::env::var("VERIF_SEED").ok().and_then(|s| s.parse().ok()).unwrap_or(0);
+            let count: usize = args.get(2).and_then(|s| s.parse().ok()).unwrap_or(500);
+            let mut rng = Rng::seeded(seed ^ 0xC0DE);
+            for i in 0..count {
+                let v = value(&mut rng, 0, &IDS, &STRS, &UNITS, &ZONES);
+                let h: *const Value = &v;
+                let c = [haystack_value_is_null(h), haystack_value_is_marker(h), haystack_value_is_remove(h), haystack_value_is_na(h), haystack_value_is_bool(h), haystack_value_is_number(h),
+                    haystack_value_is_str(h), haystack_value_is_ref(h), haystack_value_is_uri(h), haystack_value_is_symbol(h), haystack_value_is_date(h), haystack_value_is_time(h),
+                    haystack_value_is_datetime(h), haystack_value_is_coord(h), haystack_value_is_xstr(h), haystack_value_is_list(h), haystack_value_is_dict(h), haystack_value_is_grid(h)];
+                let r = [v.is_null(), v.is_marker(), v.is_remove(), v.is_na(), v.is_bool(), v.is_number(), v.is_str(), v.is_ref(), v.is_uri(), v.is_symbol(), v.is_date(), v.is_time(),
+                    v.is_datetime(), v.is_coord(), v.is_xstr(), v.is_list(), v.is_dict(), v.is_grid()];
+                if c != r { println!("RESULT enum:random-capi seed={seed} #{i} value={v:?}: C kind tests {c:?}, Rust {r:?}"); std::process::exit(3); }
+                // text out: the C strings are the Rust strings (a text holding a NUL byte cannot be a C string: null is returned)
+                let (zr, jr) = (v.to_zinc_string().unwrap(), serde_json::to_string(&v).unwrap());
+                for (what, p, want) in [("Zinc", haystack_value_to_zinc_string(h), &zr), ("JSON", haystack_value_to_json_string(h), &jr)] {
+                    if p.is_null() { if !want.contains('\0') { println!("RESULT enum:random-capi seed={seed} #{i} value={v:?}: C {what} encoder returned null, Rust {want:?}"); std::process::exit(3); } continue; }
+                    let got = CStr::from_ptr(p).to_str().map(|t| t.to_string());
+                    haystack_string_destroy(p as *mut _);
+                    if got.as_deref() != Ok(want.as_str()) { println!("RESULT enum:random-capi seed={seed} #{i} value={v:?}: C {what} text {got:?}, Rust {want:?}"); std::process::exit(3); }
+                }
+                // text in
+                if !zr.contains('\0') {
+                    let cz = CString::new(zr.as_str()).unwrap(); let cj = CString::new(jr.as_str()).unwrap();
+                    for (what, back) in [("Zinc", haystack_value_from_zinc_string(cz.as_ptr())), ("JSON", haystack_value_from_json_string(cj.as_ptr()))] {
+                        if !matches!(&back, Some(b) if format!("{:?}", norm(b)) == format!("{:?}", norm(&v))) { println!("RESULT enum:random-capi seed={seed} #{i} value={v:?}: C {what} decoder gives {back:?}"); std::process::exit(3); }
+                    }
+                }
+            }
+            println!("RESULT enum:random-capi seed={seed}: {count} random values: C kind tests, Zinc / JSON text out and back in agree with the Rust API");
+        },
         // ---- C09 enumerator (evaluation half): `id *== @ref` over resolvers whose refs form chains and cycles of several shapes must
         //      terminate with the right answer; a run that does not come back is reported as a hang by the caller's watchdog
         "enum:wildcard-cycles" => {
